@@ -606,7 +606,7 @@ impl<'tcx> Ex<'tcx> {
         let mut dbg = vec![];
         for v in &body.var_debug_info {
             let val = match &v.value {
-                mir::VarDebugInfoContents::Place(p) => self.place(*p),
+                mir::VarDebugInfoContents::Place(p) => self.place(body, *p),
                 mir::VarDebugInfoContents::Const(c) => self.constant(did, &c.const_, c.span),
             };
             dbg.push(obj! { "name" => s(v.name.as_str()), "v" => val, "arg" => match v.argument_index { Some(i) => n(i), None => J::Null } });
@@ -620,7 +620,7 @@ impl<'tcx> Ex<'tcx> {
                         let (pl, rv) = &**b;
                         stmts.push(J::A(vec![
                             s("=") ,
-                            self.place(*pl),
+                            self.place(body, *pl),
                             self.rvalue(did, body, rv),
                             self.line(st.source_info.span),
                         ]));
@@ -628,7 +628,7 @@ impl<'tcx> Ex<'tcx> {
                     StatementKind::SetDiscriminant { place, variant_index } => {
                         stmts.push(J::A(vec![
                             s("setdiscr"),
-                            self.place(**place),
+                            self.place(body, **place),
                             n(variant_index.as_usize()),
                             self.line(st.source_info.span),
                         ]));
@@ -681,7 +681,7 @@ impl<'tcx> Ex<'tcx> {
                 }
                 obj! {
                     "k" => s("switch"),
-                    "discr" => self.operand(did, discr),
+                    "discr" => self.operand(did, body, discr),
                     "discr_ty" => s(self.ty(discr.ty(&body.local_decls, self.tcx))),
                     "targets" => J::A(ts),
                     "otherwise" => self.bb(targets.otherwise()),
@@ -694,7 +694,7 @@ impl<'tcx> Ex<'tcx> {
             TerminatorKind::UnwindTerminate(_) => obj! { "k" => s("terminate") },
             TerminatorKind::Drop { place, target, unwind, .. } => obj! {
                 "k" => s("drop"),
-                "place" => self.place(*place),
+                "place" => self.place(body, *place),
                 "ty" => s(self.ty(place.ty(&body.local_decls, self.tcx).ty)),
                 "target" => self.bb(*target),
                 "unwind" => self.unwind(unwind),
@@ -702,7 +702,7 @@ impl<'tcx> Ex<'tcx> {
             },
             TerminatorKind::Assert { cond, expected, msg, target, unwind } => obj! {
                 "k" => s("assert"),
-                "cond" => self.operand(did, cond),
+                "cond" => self.operand(did, body, cond),
                 "expected" => J::B(*expected),
                 "msg" => s(assert_kind(msg)),
                 "target" => self.bb(*target),
@@ -713,15 +713,15 @@ impl<'tcx> Ex<'tcx> {
                 let fty = func.ty(&body.local_decls, self.tcx);
                 let callee = match fty.kind() {
                     ty::FnDef(cd, cargs) => self.callee(did, *cd, cargs),
-                    ty::FnPtr(..) => obj! { "kind" => s("fnptr"), "op" => self.operand(did, func) },
-                    _ => obj! { "kind" => s("other"), "ty" => s(self.ty(fty)), "op" => self.operand(did, func) },
+                    ty::FnPtr(..) => obj! { "kind" => s("fnptr"), "op" => self.operand(did, body, func) },
+                    _ => obj! { "kind" => s("other"), "ty" => s(self.ty(fty)), "op" => self.operand(did, body, func) },
                 };
                 obj! {
                     "k" => s("call"),
                     "f" => callee,
-                    "args" => J::A(args.iter().map(|a| self.operand(did, &a.node)).collect()),
+                    "args" => J::A(args.iter().map(|a| self.operand(did, body, &a.node)).collect()),
                     "arg_tys" => J::A(args.iter().map(|a| s(self.ty(a.node.ty(&body.local_decls, self.tcx)))).collect()),
-                    "dest" => self.place(*destination),
+                    "dest" => self.place(body, *destination),
                     "target" => match target { Some(b) => self.bb(*b), None => J::Null },
                     "unwind" => self.unwind(unwind),
                     "line" => line,
@@ -787,12 +787,21 @@ impl<'tcx> Ex<'tcx> {
         J::O(o)
     }
 
-    fn place(&self, p: Place<'tcx>) -> J {
+    fn place(&self, body: &Body<'tcx>, p: Place<'tcx>) -> J {
         let mut proj = vec![];
-        for e in p.projection.iter() {
+        for (i, e) in p.projection.iter().enumerate() {
             proj.push(match e {
                 ProjectionElem::Deref => s("*"),
-                ProjectionElem::Field(f, t) => J::A(vec![s("f"), n(f.as_usize()), s(self.ty(t))]),
+                ProjectionElem::Field(f, t) => {
+                    let base = mir::PlaceRef { local: p.local, projection: &p.projection[..i] }.ty(&body.local_decls, self.tcx).ty;
+                    let base_adt = match base.kind() {
+                        ty::Adt(d, _) => s(self.cpath(d.did())),
+                        ty::Closure(d, _) => s(format!("closure{{{}}}", self.key(*d))),
+                        ty::Tuple(_) => s("(tuple)"),
+                        _ => J::Null,
+                    };
+                    J::A(vec![s("f"), n(f.as_usize()), s(self.ty(t)), base_adt])
+                }
                 ProjectionElem::Index(l) => J::A(vec![s("i"), n(l.as_usize())]),
                 ProjectionElem::ConstantIndex { offset, from_end, .. } => {
                     J::A(vec![s("ci"), n(offset), J::B(from_end)])
@@ -811,10 +820,10 @@ impl<'tcx> Ex<'tcx> {
         J::A(vec![n(p.local.as_usize()), J::A(proj)])
     }
 
-    fn operand(&self, did: DefId, op: &Operand<'tcx>) -> J {
+    fn operand(&self, did: DefId, body: &Body<'tcx>, op: &Operand<'tcx>) -> J {
         match op {
-            Operand::Copy(p) => J::A(vec![s("copy"), self.place(*p)]),
-            Operand::Move(p) => J::A(vec![s("move"), self.place(*p)]),
+            Operand::Copy(p) => J::A(vec![s("copy"), self.place(body, *p)]),
+            Operand::Move(p) => J::A(vec![s("move"), self.place(body, *p)]),
             Operand::Constant(c) => self.constant(did, &c.const_, c.span),
             #[allow(unreachable_patterns)]
             other => J::A(vec![s("op?"), s(format!("{:?}", other))]),
@@ -870,8 +879,8 @@ impl<'tcx> Ex<'tcx> {
 
     fn rvalue(&self, did: DefId, body: &Body<'tcx>, rv: &Rvalue<'tcx>) -> J {
         match rv {
-            Rvalue::Use(op, ..) => J::A(vec![s("use"), self.operand(did, op)]),
-            Rvalue::Repeat(op, c) => J::A(vec![s("repeat"), self.operand(did, op), s(format!("{}", c))]),
+            Rvalue::Use(op, ..) => J::A(vec![s("use"), self.operand(did, body, op)]),
+            Rvalue::Repeat(op, c) => J::A(vec![s("repeat"), self.operand(did, body, op), s(format!("{}", c))]),
             Rvalue::Ref(_, bk, p) => J::A(vec![
                 s("ref"),
                 s(match bk {
@@ -879,24 +888,24 @@ impl<'tcx> Ex<'tcx> {
                     mir::BorrowKind::Fake(_) => "fake",
                     mir::BorrowKind::Mut { .. } => "mut",
                 }),
-                self.place(*p),
+                self.place(body, *p),
             ]),
-            Rvalue::RawPtr(k, p) => J::A(vec![s("rawptr"), s(format!("{:?}", k)), self.place(*p)]),
+            Rvalue::RawPtr(k, p) => J::A(vec![s("rawptr"), s(format!("{:?}", k)), self.place(body, *p)]),
             Rvalue::Cast(k, op, t) => J::A(vec![
                 s("cast"),
                 s(format!("{:?}", k)),
-                self.operand(did, op),
+                self.operand(did, body, op),
                 s(self.ty(*t)),
                 s(self.ty(op.ty(&body.local_decls, self.tcx))),
             ]),
             Rvalue::BinaryOp(op, b) => J::A(vec![
                 s("bin"),
                 s(format!("{:?}", op)),
-                self.operand(did, &b.0),
-                self.operand(did, &b.1),
+                self.operand(did, body, &b.0),
+                self.operand(did, body, &b.1),
             ]),
-            Rvalue::UnaryOp(op, a) => J::A(vec![s("un"), s(format!("{:?}", op)), self.operand(did, a)]),
-            Rvalue::Discriminant(p) => J::A(vec![s("discr"), self.place(*p)]),
+            Rvalue::UnaryOp(op, a) => J::A(vec![s("un"), s(format!("{:?}", op)), self.operand(did, body, a)]),
+            Rvalue::Discriminant(p) => J::A(vec![s("discr"), self.place(body, *p)]),
             Rvalue::Aggregate(k, ops) => {
                 let kind = match &**k {
                     AggregateKind::Array(t) => obj! { "k" => s("array"), "ty" => s(self.ty(*t)) },
@@ -915,9 +924,9 @@ impl<'tcx> Ex<'tcx> {
                     AggregateKind::RawPtr(t, m) => obj! { "k" => s("rawptr"), "ty" => s(self.ty(*t)), "mut" => J::B(m.is_mut()) },
                     other => obj! { "k" => s("other"), "text" => s(format!("{:?}", other)) },
                 };
-                J::A(vec![s("agg"), kind, J::A(ops.iter().map(|o| self.operand(did, o)).collect())])
+                J::A(vec![s("agg"), kind, J::A(ops.iter().map(|o| self.operand(did, body, o)).collect())])
             }
-            Rvalue::CopyForDeref(p) => J::A(vec![s("use"), J::A(vec![s("copy"), self.place(*p)])]),
+            Rvalue::CopyForDeref(p) => J::A(vec![s("use"), J::A(vec![s("copy"), self.place(body, *p)])]),
             Rvalue::ThreadLocalRef(d) => J::A(vec![s("tls"), s(self.cpath(*d))]),
             other => J::A(vec![s("rv?"), s(format!("{:?}", other))]),
         }
